@@ -677,6 +677,7 @@ Proof.
     change (set_fors (set_var (at_state st0 d i) v va) (rec :: fors (set_var (at_state st0 d i) v va)))
       with (at_state st0' (d_setv d v va) i).
     apply Hnext; auto.
+    intros d3 Hd3. apply Hloop; auto.
   - cbn [lhs_of]. rewrite pre_out_nil.
     change (set_pc (set_fors (set_var (at_state st0 d i) v va) (rec :: fors (set_var (at_state st0 d i) v va))) (S i))
       with (at_state st0' (d_setv d v va) (S i)).
